@@ -88,6 +88,31 @@ def _crash_job(case):
     return {"points": len(base.snapshots), "states": len(states), "violations": viol, "label": label}
 
 
+def _short_job(case):
+    """Every raw write(2) of the call, in turn, transfers only half of its buffer: whatever the call then reports,
+    the files at permanent addresses must satisfy I9."""
+    from .. import engine_f
+    op, state = case
+    c = fscen.ctx()
+    root = os.path.join(common.scratch(), "c09-short")
+    init = fscen.init_tree(state)
+    env.install()
+    base = engine_f.run_call(root, init, fscen.P, op, c)
+    docs, cids = i9.allowed_sets(c, init)
+    res, n = [], 0
+    for i, sop in enumerate(base.sites):
+        if sop[0] != "write" or sop[1] != "write":
+            continue
+        r = engine_f.run_call(root, init, fscen.P, op, c, fault=(i, "SHORT", False))
+        if not r.injected:
+            continue
+        n += 1
+        for where, what in i9.check_tree(common.snapshot(root), fscen.LAYOUT.algo, docs, cids):
+            res.append(({"part": "short-write", "call": op[0], "what": what + " after a short write"},
+                        {"call": list(op), "state": state, "site": i, "outcome": r.outcome[0]}))
+    return n, res
+
+
 def main(tier):
     rep = common.Report("C09", tier, "model_checking")
     results = run_scenarios(rep, scenarios(tier))
@@ -119,6 +144,13 @@ def main(tier):
                         rep.violation({"scenario": r["name"], "part": "reader",
                                        "what": "a concurrent reader was served bytes that are no complete content"},
                                       {"spec": r["spec"], "schedule": vd["schedule"], "terminal": t})
+    nshort = 0
+    for cnt, res in pmap(_short_job, [(("store", "p", "L", None), "q=B"), (("store", "p", "K", None), "q=B"),
+                                      (("store_meta", "p", None, "v2"), "p=A+docs,q=B")]):
+        nshort += cnt
+        for sig, det in res:
+            rep.violation(sig, det)
+    rep.coverage["short_write_runs"] = nshort
     pts = sts = 0
     for r in pmap(_crash_job, CRASH_CASES):
         pts += r["points"]
